@@ -364,7 +364,8 @@ snarf_scale(const char *spec)
 		break;
 	case 'H':
 		r = SCALE_HIJRI_UMMULQURA;
-		if (UNLIKELY(spec[5U] == '.')) {
+		/* mind that SPEC might end anywhere, so look at it bit by bit */
+		if (UNLIKELY(!strncmp(spec, "HIJRI.", 6U))) {
 			/* one of the Hijris */
 			switch (spec[6U]) {
 			default:
@@ -374,14 +375,21 @@ snarf_scale(const char *spec)
 				r = SCALE_HIJRI_DIYANET;
 				break;
 			case 'I': {
-				/* Gent's types */
-				const char *kp = spec + 7U;
-				r = SCALE_HIJRI_IA;
-				r += (echs_scale_t)((*kp == 'V' || *kp++ == 'I') * 2U);
-				r += (echs_scale_t)((*kp == 'V' || *kp++ == 'I') * 2U);
-				r += (echs_scale_t)((*kp == 'C'));
-				r += (echs_scale_t)((*kp == 'V') ? 2U : 0U);
-				r += (echs_scale_t)(*++kp == 'C');
+				/* Gent's types, I, II, III and IV */
+				const char *kp = spec + 6U;
+				unsigned int typ;
+
+				if (!strncmp(kp, "IV", 2U)) {
+					typ = 3U, kp += 2U;
+				} else if (!strncmp(kp, "III", 3U)) {
+					typ = 2U, kp += 3U;
+				} else if (!strncmp(kp, "II", 2U)) {
+					typ = 1U, kp += 2U;
+				} else {
+					typ = 0U, kp += 1U;
+				}
+				/* followed by A(stronomical) or C(ivil) epoch */
+				r = (echs_scale_t)(SCALE_HIJRI_IA + 2U * typ + (*kp == 'C'));
 				break;
 			}
 			}
